@@ -101,111 +101,7 @@ func checkC08(w *World, r *Recorder) propInfo {
 	}
 	prep := noInlineValidate(w)
 	for _, g := range gates {
-		fn := w.findFunc(g.Recv, g.Name)
-		gkey := g.Name
-		if g.Recv != "" {
-			gkey = g.Recv + "." + g.Name
-		}
-		if fn == nil {
-			r.Undecide("C08-anchor", gkey, "-", "validating entry point not found")
-			continue
-		}
-		s := w.SummariseWith(fn, prep)
-		r.Count("paths", len(s.Paths))
-		r.Count("engine_steps", s.Steps)
-		if ok, why := s.Complete(); !ok {
-			r.Undecide("C08-G1", gkey, w.FnPos(fn), why)
-			continue
-		}
-		ei := errIndex(fn)
-		successes := 0
-		for pi, p := range s.Paths {
-			if p.Panic != nil {
-				r.Note("%s: path %d panics (%s) — C05's business", gkey, pi, p.St.Describe())
-				continue
-			}
-			_, nl := errOf(p, ei)
-			pkey := fmt.Sprintf("%s#%s", gkey, c08PathKey(p))
-			if nl == 1 {
-				// G2
-				ok := true
-				why := ""
-				for i, a := range p.Rets {
-					if i == ei {
-						continue
-					}
-					if a.Kind != KNil {
-						ok = false
-						why = fmt.Sprintf("result %d is %s on a failing path", i, a)
-					}
-				}
-				if g.Kind == "attach" {
-					recv := fn.Params[0].Name()
-					for _, ev := range p.St.events {
-						if ev.Kind == "store" && strings.HasPrefix(ev.Loc, "P:"+recv+"|") {
-							ok = false
-							why = fmt.Sprintf("store to %s on a failing path", ev.Loc)
-						}
-					}
-				}
-				r.Check(ok, "C08-G2", pkey, w.InstrPos(p.Ret), "failing path returns nil outputs and attaches nothing", why+" ["+p.St.Describe()+"]")
-				continue
-			}
-			successes++
-			// G1
-			subject, useIdx, err := c08Subject(g, fn, p)
-			if err != "" {
-				r.Refute("C08-G1", pkey, w.InstrPos(p.Ret), err)
-				continue
-			}
-			found := false
-			why := fmt.Sprintf("no Validate() call on %s with a nil result on this path", subject)
-			for i, ev := range p.St.events {
-				if !isValidateCall(ev) {
-					continue
-				}
-				if avSubject(validateRecv(ev)) != subject {
-					continue
-				}
-				if p.St.NilOf(ev.Result) != -1 {
-					why = fmt.Sprintf("Validate() on %s is called but the path does not require its result to be nil", subject)
-					continue
-				}
-				if useIdx >= 0 && i > useIdx {
-					why = fmt.Sprintf("Validate() on %s happens after the value is used", subject)
-					continue
-				}
-				// nothing touches the subject between validation and use
-				clean := true
-				end := len(p.St.events)
-				if useIdx >= 0 {
-					end = useIdx
-				}
-				for _, mid := range p.St.events[i+1 : end] {
-					if mid.Kind == "call" && c08Mentions(mid, subject) && !c08PureUse(mid) {
-						clean = false
-						why = fmt.Sprintf("%s is passed to %s between validation and use", subject, mid.Callee)
-					}
-					if mid.Kind == "store" && strings.Contains(mid.Loc, subject) && g.Kind != "attach" {
-						clean = false
-						why = fmt.Sprintf("store to %s between validation and use", mid.Loc)
-					}
-				}
-				if clean {
-					found = true
-					break
-				}
-			}
-			r.Check(found, "C08-G1", pkey, w.InstrPos(p.Ret),
-				fmt.Sprintf("success only under Validate(%s)==nil, checked before use", subject), why+" ["+p.St.Describe()+"]")
-		}
-		if successes == 0 {
-			r.Refute("C08-G1", gkey+"#reachable-success", w.FnPos(fn), "the gate has no path that can succeed")
-		}
-		// G3
-		if g.Sibling != "" {
-			c08Sibling(w, r, g, fn, s, prep)
-		}
+		c08Gate(w, r, g, prep)
 	}
 	r.Floor("C08-G1", 8)
 	r.Floor("C08-G2", 8)
@@ -480,4 +376,114 @@ func c08CallsSibling(fn, sib *ssa.Function, s *Summary) bool {
 		}
 	}
 	return n > 0
+}
+
+// c08Gate evaluates G1-G3 for one validating entry point.
+func c08Gate(w *World, r *Recorder, g gateSpec, prep func(*Engine)) {
+
+	fn := w.findFunc(g.Recv, g.Name)
+	gkey := g.Name
+	if g.Recv != "" {
+		gkey = g.Recv + "." + g.Name
+	}
+	if fn == nil {
+		r.Undecide("C08-anchor", gkey, "-", "validating entry point not found")
+		return
+	}
+	s := w.SummariseWith(fn, prep)
+	r.Count("paths", len(s.Paths))
+	r.Count("engine_steps", s.Steps)
+	if ok, why := s.Complete(); !ok {
+		r.Undecide("C08-G1", gkey, w.FnPos(fn), why)
+		return
+	}
+	ei := errIndex(fn)
+	successes := 0
+	for pi, p := range s.Paths {
+		if p.Panic != nil {
+			r.Note("%s: path %d panics (%s) — C05's business", gkey, pi, p.St.Describe())
+			continue
+		}
+		_, nl := errOf(p, ei)
+		pkey := fmt.Sprintf("%s#%s", gkey, c08PathKey(p))
+		if nl == 1 {
+			// G2
+			ok := true
+			why := ""
+			for i, a := range p.Rets {
+				if i == ei {
+					continue
+				}
+				if a.Kind != KNil {
+					ok = false
+					why = fmt.Sprintf("result %d is %s on a failing path", i, a)
+				}
+			}
+			if g.Kind == "attach" {
+				recv := fn.Params[0].Name()
+				for _, ev := range p.St.events {
+					if ev.Kind == "store" && strings.HasPrefix(ev.Loc, "P:"+recv+"|") {
+						ok = false
+						why = fmt.Sprintf("store to %s on a failing path", ev.Loc)
+					}
+				}
+			}
+			r.Check(ok, "C08-G2", pkey, w.InstrPos(p.Ret), "failing path returns nil outputs and attaches nothing", why+" ["+p.St.Describe()+"]")
+			continue
+		}
+		successes++
+		// G1
+		subject, useIdx, err := c08Subject(g, fn, p)
+		if err != "" {
+			r.Refute("C08-G1", pkey, w.InstrPos(p.Ret), err)
+			continue
+		}
+		found := false
+		why := fmt.Sprintf("no Validate() call on %s with a nil result on this path", subject)
+		for i, ev := range p.St.events {
+			if !isValidateCall(ev) {
+				continue
+			}
+			if avSubject(validateRecv(ev)) != subject {
+				continue
+			}
+			if p.St.NilOf(ev.Result) != -1 {
+				why = fmt.Sprintf("Validate() on %s is called but the path does not require its result to be nil", subject)
+				continue
+			}
+			if useIdx >= 0 && i > useIdx {
+				why = fmt.Sprintf("Validate() on %s happens after the value is used", subject)
+				continue
+			}
+			// nothing touches the subject between validation and use
+			clean := true
+			end := len(p.St.events)
+			if useIdx >= 0 {
+				end = useIdx
+			}
+			for _, mid := range p.St.events[i+1 : end] {
+				if mid.Kind == "call" && c08Mentions(mid, subject) && !c08PureUse(mid) {
+					clean = false
+					why = fmt.Sprintf("%s is passed to %s between validation and use", subject, mid.Callee)
+				}
+				if mid.Kind == "store" && strings.Contains(mid.Loc, subject) && g.Kind != "attach" {
+					clean = false
+					why = fmt.Sprintf("store to %s between validation and use", mid.Loc)
+				}
+			}
+			if clean {
+				found = true
+				break
+			}
+		}
+		r.Check(found, "C08-G1", pkey, w.InstrPos(p.Ret),
+			fmt.Sprintf("success only under Validate(%s)==nil, checked before use", subject), why+" ["+p.St.Describe()+"]")
+	}
+	if successes == 0 {
+		r.Refute("C08-G1", gkey+"#reachable-success", w.FnPos(fn), "the gate has no path that can succeed")
+	}
+	// G3
+	if g.Sibling != "" {
+		c08Sibling(w, r, g, fn, s, prep)
+	}
 }
